@@ -1,4 +1,282 @@
-import Aoe.Model.PerPlayer
+import Aoe.Lemmas.PerPlayerHeap
+/-!
+# C08 – per-player copies change only the player fields they are allowed to change
+
+Theorems about the model `Aoe.PerPlayer` of `copy_trigger_per_player`, `replace_player` and
+`copy_trigger_tree_per_player`, for **all** states, triggers, flag combinations, locks and player lists.
+
+Vocabulary (defined in `Aoe.Lemmas.PerPlayerHeap`):
+* `Selects s sel src t0` – `sel` resolves in `s` to the trigger object at address `src`, whose value is `t0`;
+* `Corr t0 t' isEff j c c'` – `c` is condition (`isEff = false`) / effect (`isEff = true`) number `j` of `t0`
+  and `c'` is the one at the same place of `t'`;
+* `lockedAt lk isEff j c` – the `TriggerCELock` `lk` locks that component (all / by index / by type);
+* `owners a` – the dict keys of the result: the requested players (default 1..8, GAIA appended when asked and
+  missing) without the source player, first occurrences, in request order.
+A component is `{kind, src, tgt, link, rest}`; `rest` stands for every attribute the property calls "non-player".
+-/
 namespace Aoe.Props.C08
-theorem placeholder : True := trivial
+open Aoe.PerPlayer
+
+variable {s s' : State} {a : Args} {sel : Sel} {d : List (Int × Nat)} {src x : Nat} {p : Int} {t0 t' : Trig}
+
+/-! ## `copy_trigger_per_player` -/
+
+/-- every returned copy is the componentwise rewriting of the source (the shape all clauses are read off) -/
+theorem copy_shape (h : copyPerPlayer s a sel = .ok (s', d)) (hs : Selects s sel src t0) (hd : (p, x) ∈ d)
+    (hx : s'.heap[x]? = some t') :
+    ∃ k, t' = rewriteSpec (rwCopy a.flags a.frm p) a.lock { t0 with tid := k, name := t0.name ++ suffix p } := by
+  obtain ⟨ti, di, src', t0', news, h1, h2, _, _, _, _, _, h8⟩ := copyPerPlayer_ok h
+  obtain ⟨ti', di', hs1, hs2⟩ := hs
+  rw [h1] at hs1; injection hs1 with hs1; injection hs1 with _ hs1; injection hs1 with _ hs1; subst hs1
+  rw [h2] at hs2; injection hs2 with hs2; subst hs2
+  obtain ⟨_, _, _, k, hk⟩ := h8 p x hd
+  rw [hk] at hx; injection hx with hx
+  exact ⟨k, by rw [← hx, mkCopy_eq]⟩
+
+/-- **one copy per requested player**: the result has exactly the keys `owners a`, in that order; its values
+are pairwise different, fresh (not objects of the old state) and listed in the manager; the number of new
+objects is the number of requests other than the source player; the old list is a prefix of the new one. -/
+theorem one_copy_per_player (h : copyPerPlayer s a sel = .ok (s', d)) :
+    d.map (·.1) = owners a ∧ (d.map (·.2)).Nodup ∧
+    s'.heap.length = s.heap.length + ((effPlayers a).filter (· != a.frm)).length ∧
+    s'.list = s.list ++ List.range' s.heap.length ((effPlayers a).filter (· != a.frm)).length ∧
+    (∀ p x, (p, x) ∈ d → s.heap.length ≤ x ∧ x < s'.heap.length ∧ x ∈ s'.list) := by
+  obtain ⟨ti, di, src', t0', news, h1, h2, h3, h4, h5, _, h7, h8⟩ := copyPerPlayer_ok h
+  refine ⟨h7, copyPerPlayer_vals_nodup h, by rw [h3]; simp [h4], by rw [h5, h4], ?_⟩
+  intro p x hd
+  obtain ⟨_, _, hge, k, hk⟩ := h8 p x hd
+  have hlt : x < s'.heap.length := by
+    rcases Nat.lt_or_ge x s'.heap.length with h | h
+    · exact h
+    · rw [List.getElem?_eq_none h] at hk; cases hk
+  refine ⟨hge, hlt, ?_⟩
+  rw [h5, List.mem_append, List.mem_range']
+  right
+  refine ⟨x - s.heap.length, ?_, by omega⟩
+  rw [h3] at hlt; simp at hlt; omega
+
+/-- who the owners are: everybody requested (`requested a` = `create_copy_for_players`, by default 1..8), plus
+GAIA when `include_gaia`, except the source player; nobody twice -/
+theorem owners_spec (a : Args) :
+    (owners a).Nodup ∧
+    (∀ p, p ∈ owners a ↔ p ≠ a.frm ∧ (p ∈ requested a ∨ (a.gaia = true ∧ p = 0))) := by
+  refine ⟨nodup_foldl_addKey _ _ List.nodup_nil, ?_⟩
+  intro p
+  unfold owners
+  rw [mem_foldl_addKey, effPlayers_eq]
+  simp only [List.not_mem_nil, false_or, List.mem_filter, bne_iff_ne, ne_eq]
+  by_cases hg : (a.gaia && !(requested a).contains 0) = true
+  · simp only [hg, if_true, List.mem_append, List.mem_singleton]
+    simp only [Bool.and_eq_true] at hg
+    constructor
+    · rintro ⟨hm | hm, hne⟩
+      · exact ⟨hne, Or.inl hm⟩
+      · exact ⟨hne, Or.inr ⟨hg.1, hm⟩⟩
+    · rintro ⟨hne, hm | ⟨_, hm⟩⟩
+      · exact ⟨Or.inl hm, hne⟩
+      · exact ⟨Or.inr hm, hne⟩
+  · simp only [hg, Bool.false_eq_true, if_false]
+    constructor
+    · rintro ⟨hm, hne⟩
+      exact ⟨hne, Or.inl hm⟩
+    · rintro ⟨hne, hm | ⟨hga, rfl⟩⟩
+      · exact ⟨hm, hne⟩
+      · simp only [Bool.and_eq_true, not_and, hga, true_implies] at hg
+        exact ⟨by simpa using hg, hne⟩
+
+/-- for a request without duplicates the owner list is literally the request without the source player -/
+theorem owners_of_nodup (a : Args) (hn : (effPlayers a).Nodup) :
+    owners a = (effPlayers a).filter (· != a.frm) := by
+  unfold owners
+  rw [foldl_addKey_of_nodup _ _ (by simpa using hn.sublist List.filter_sublist)]
+  simp
+
+/-- **frame**: a copy has as many conditions and effects as the source, and every non-player attribute
+(`kind`, `link`, `rest`) of every one of them equals the source's -/
+theorem copy_frame (h : copyPerPlayer s a sel = .ok (s', d)) (hs : Selects s sel src t0) (hd : (p, x) ∈ d)
+    (hx : s'.heap[x]? = some t') :
+    t'.conds.length = t0.conds.length ∧ t'.effs.length = t0.effs.length ∧
+    ∀ isEff j c c', Corr t0 t' isEff j c c' → c'.kind = c.kind ∧ c'.link = c.link ∧ c'.rest = c.rest := by
+  obtain ⟨k, rfl⟩ := copy_shape h hs hd hx
+  refine ⟨(length_rewriteSpec _ _ _).1, (length_rewriteSpec _ _ _).2, ?_⟩
+  intro isEff j c c' hc
+  rw [corr_rewriteSpec rfl rfl hc]
+  split
+  · exact ⟨rfl, rfl, rfl⟩
+  · exact rwCopy_frame _ _ _ _
+
+/-- **locked components are untouched** (lock everything / by index / by type) -/
+theorem locked_untouched (h : copyPerPlayer s a sel = .ok (s', d)) (hs : Selects s sel src t0) (hd : (p, x) ∈ d)
+    (hx : s'.heap[x]? = some t') {isEff : Bool} {j : Nat} {c c' : Comp} (hc : Corr t0 t' isEff j c c')
+    (hl : lockedAt a.lock isEff j c = true) : c' = c := by
+  obtain ⟨k, rfl⟩ := copy_shape h hs hd hx
+  rw [corr_rewriteSpec rfl rfl hc, hl]; rfl
+
+/-- **source-player fields change only if source changes are enabled** -/
+theorem src_only_if_enabled (h : copyPerPlayer s a sel = .ok (s', d)) (hs : Selects s sel src t0)
+    (hd : (p, x) ∈ d) (hx : s'.heap[x]? = some t') {isEff : Bool} {j : Nat} {c c' : Comp}
+    (hc : Corr t0 t' isEff j c c') (hne : c'.src ≠ c.src) : a.flags.incSrc = true := by
+  obtain ⟨k, rfl⟩ := copy_shape h hs hd hx
+  rw [corr_rewriteSpec rfl rfl hc] at hne
+  split at hne
+  · exact absurd rfl hne
+  · exact (rwCopy_src _ _ _ _ hne).1
+
+/-- **target-player fields change only if target changes are enabled** -/
+theorem tgt_only_if_enabled (h : copyPerPlayer s a sel = .ok (s', d)) (hs : Selects s sel src t0)
+    (hd : (p, x) ∈ d) (hx : s'.heap[x]? = some t') {isEff : Bool} {j : Nat} {c c' : Comp}
+    (hc : Corr t0 t' isEff j c c') (hne : c'.tgt ≠ c.tgt) : a.flags.incTgt = true := by
+  obtain ⟨k, rfl⟩ := copy_shape h hs hd hx
+  rw [corr_rewriteSpec rfl rfl hc] at hne
+  split at hne
+  · exact absurd rfl hne
+  · exact (rwCopy_tgt _ _ _ _ hne).1
+
+/-- **kept if not the from-player**: under `change_from_player_only` a field that is not equal to the source
+player (this includes unset `None` and `-1` fields) keeps its value -/
+theorem kept_if_not_from_player (h : copyPerPlayer s a sel = .ok (s', d)) (hs : Selects s sel src t0)
+    (hd : (p, x) ∈ d) (hx : s'.heap[x]? = some t') {isEff : Bool} {j : Nat} {c c' : Comp}
+    (hc : Corr t0 t' isEff j c c') (hfo : a.flags.fromOnly = true) :
+    (c.src ≠ some a.frm → c'.src = c.src) ∧ (c.tgt ≠ some a.frm → c'.tgt = c.tgt) := by
+  obtain ⟨k, rfl⟩ := copy_shape h hs hd hx
+  rw [corr_rewriteSpec rfl rfl hc]
+  split
+  · exact ⟨fun _ => rfl, fun _ => rfl⟩
+  · constructor
+    · intro hne
+      apply Classical.byContradiction
+      intro hch
+      exact hne ((rwCopy_src _ _ _ _ hch).2.2.1 hfo)
+    · intro hne
+      apply Classical.byContradiction
+      intro hch
+      exact hne ((rwCopy_tgt _ _ _ _ hch).2.2.1 hfo)
+
+/-- **every field that changes becomes the copy's player** -/
+theorem changed_becomes_player (h : copyPerPlayer s a sel = .ok (s', d)) (hs : Selects s sel src t0)
+    (hd : (p, x) ∈ d) (hx : s'.heap[x]? = some t') {isEff : Bool} {j : Nat} {c c' : Comp}
+    (hc : Corr t0 t' isEff j c c') :
+    (c'.src ≠ c.src → c'.src = some p) ∧ (c'.tgt ≠ c.tgt → c'.tgt = some p) := by
+  obtain ⟨k, rfl⟩ := copy_shape h hs hd hx
+  rw [corr_rewriteSpec rfl rfl hc]
+  split
+  · exact ⟨fun hne => absurd rfl hne, fun hne => absurd rfl hne⟩
+  · exact ⟨fun hne => (rwCopy_src _ _ _ _ hne).2.1, fun hne => (rwCopy_tgt _ _ _ _ hne).2.1⟩
+
+/-- a component whose source player is the "unset" value `-1` is left alone entirely (the `continue` of the loops) -/
+theorem unset_source_untouched (h : copyPerPlayer s a sel = .ok (s', d)) (hs : Selects s sel src t0)
+    (hd : (p, x) ∈ d) (hx : s'.heap[x]? = some t') {isEff : Bool} {j : Nat} {c c' : Comp}
+    (hc : Corr t0 t' isEff j c c') (hu : c.src = some (-1)) : c' = c := by
+  obtain ⟨k, rfl⟩ := copy_shape h hs hd hx
+  rw [corr_rewriteSpec rfl rfl hc]
+  split
+  · rfl
+  · simp [rwCopy, hu]
+
+/-- **the source is not modified**: every object of the old state is still at its address with the same
+conditions, effects and trigger id – all but the selected source are literally unchanged, and the source itself
+only has its name extended by ` (p<from_player>)`. What the function returns for the source player: nothing
+(`from_player ∉ owners`); the source object stays where it was. -/
+theorem source_components_unmodified (h : copyPerPlayer s a sel = .ok (s', d)) (hs : Selects s sel src t0) :
+    s'.heap[src]? = some (renameSrc a.frm t0) ∧
+    (∀ (y : Nat) (t : Trig), s.heap[y]? = some t → y ≠ src → s'.heap[y]? = some t) ∧
+    (∀ (y : Nat) (t : Trig), s.heap[y]? = some t → ∃ t1 : Trig, s'.heap[y]? = some t1 ∧ t1.conds = t.conds ∧ t1.effs = t.effs ∧
+      t1.tid = t.tid) ∧
+    a.frm ∉ d.map (·.1) := by
+  obtain ⟨ti, di, src', t0', news, h1, h2, h3, _, _, _, h7, _⟩ := copyPerPlayer_ok h
+  obtain ⟨ti', di', hs1, hs2⟩ := hs
+  rw [h1] at hs1; injection hs1 with hs1; injection hs1 with _ hs1; injection hs1 with _ hs1
+  have hs1' := hs1.symm; subst hs1'
+  rw [h2] at hs2; injection hs2 with hs2; have hs2' := hs2.symm; subst hs2'
+  have key : ∀ (y : Nat) (t : Trig), s.heap[y]? = some t → s'.heap[y]? = some (if src = y then renameSrc a.frm t else t) := by
+    intro y t hy
+    have hlt : y < s.heap.length := by
+      rcases Nat.lt_or_ge y s.heap.length with h | h
+      · exact h
+      · rw [List.getElem?_eq_none h] at hy; cases hy
+    rw [h3, List.getElem?_append_left (by simpa using hlt), List.getElem?_modify, hy]
+    by_cases e : src = y <;> simp [e]
+  refine ⟨by simpa using key src t0 h2, ?_, ?_, ?_⟩
+  · intro y t hy hne
+    have : ¬ src = y := fun e => hne e.symm
+    simpa [this] using key y t hy
+  · intro y t hy
+    refine ⟨_, key y t hy, ?_⟩
+    by_cases e : src = y <;> simp [e, renameSrc]
+  · rw [h7]
+    intro hm
+    exact ((owners_spec a).2 a.frm).mp hm |>.1 rfl
+
+/-! ## `replace_player` (in place) -/
+
+variable {to : Int} {only : Option Int} {is_ it : Bool} {lk : Lock}
+
+/-- `replace_player` returns the selected object itself, rewritten componentwise in place; no object is created,
+every other object, the trigger list and the display order are untouched -/
+theorem replace_shape (h : replacePlayer s sel to only is_ it lk = .ok (s', x)) (hs : Selects s sel src t0) :
+    x = src ∧ s'.heap[src]? = some (rewriteSpec (rwReplace is_ it to only) lk t0) ∧
+    s'.heap.length = s.heap.length ∧ (∀ y, y ≠ src → s'.heap[y]? = s.heap[y]?) ∧
+    s'.list = s.list ∧ s'.order = s.order := by
+  obtain ⟨ti, di, t0', h1, h2, h3, h4, h5⟩ := replacePlayer_ok h
+  obtain ⟨ti', di', hs1, hs2⟩ := hs
+  rw [h1] at hs1; injection hs1 with hs1; injection hs1 with _ hs1; injection hs1 with _ hs1
+  have hs1' := hs1.symm; subst hs1'
+  rw [h2] at hs2; injection hs2 with hs2; have hs2' := hs2.symm; subst hs2'
+  refine ⟨rfl, ?_, by rw [h3]; simp, ?_, h4, h5⟩
+  · rw [h3, List.getElem?_modify, h2]; simp
+  · intro y hy
+    have : ¬ src = y := fun e => hy e.symm
+    rw [h3, List.getElem?_modify]; simp [this]
+
+/-- frame of `replace_player`: same number of components, all non-player attributes kept -/
+theorem replace_frame (h : replacePlayer s sel to only is_ it lk = .ok (s', x)) (hs : Selects s sel src t0)
+    (hx : s'.heap[x]? = some t') :
+    t'.conds.length = t0.conds.length ∧ t'.effs.length = t0.effs.length ∧ t'.name = t0.name ∧ t'.tid = t0.tid ∧
+    ∀ isEff j c c', Corr t0 t' isEff j c c' → c'.kind = c.kind ∧ c'.link = c.link ∧ c'.rest = c.rest := by
+  obtain ⟨rfl, h2, _⟩ := replace_shape h hs
+  rw [h2] at hx; injection hx with hx; subst hx
+  refine ⟨(length_rewriteSpec _ _ _).1, (length_rewriteSpec _ _ _).2, rfl, rfl, ?_⟩
+  intro isEff j c c' hc
+  rw [corr_rewriteSpec rfl rfl hc]
+  split
+  · exact ⟨rfl, rfl, rfl⟩
+  · exact rwReplace_frame _ _ _ _ _
+
+/-- locked components of the replaced trigger are untouched -/
+theorem replace_locked_untouched (h : replacePlayer s sel to only is_ it lk = .ok (s', x))
+    (hs : Selects s sel src t0) (hx : s'.heap[x]? = some t') {isEff : Bool} {j : Nat} {c c' : Comp}
+    (hc : Corr t0 t' isEff j c c') (hl : lockedAt lk isEff j c = true) : c' = c := by
+  obtain ⟨rfl, h2, _⟩ := replace_shape h hs
+  rw [h2] at hx; injection hx with hx; subst hx
+  rw [corr_rewriteSpec rfl rfl hc, hl]; rfl
+
+/-- `replace_player`: a source-player field changes only if source changes are enabled, only if it was set
+(neither `None` nor `-1`), only if it equals `only_change_from` when that is given, and it becomes `to_player` -/
+theorem replace_src (h : replacePlayer s sel to only is_ it lk = .ok (s', x)) (hs : Selects s sel src t0)
+    (hx : s'.heap[x]? = some t') {isEff : Bool} {j : Nat} {c c' : Comp} (hc : Corr t0 t' isEff j c c')
+    (hne : c'.src ≠ c.src) :
+    is_ = true ∧ c'.src = some to ∧ (∀ o, only = some o → c.src = some o) ∧ c.src ≠ none ∧ c.src ≠ some (-1) := by
+  obtain ⟨rfl, h2, _⟩ := replace_shape h hs
+  rw [h2] at hx; injection hx with hx; subst hx
+  rw [corr_rewriteSpec rfl rfl hc] at hne ⊢
+  split at hne
+  · exact absurd rfl hne
+  · rename_i hl
+    simp only [hl, Bool.false_eq_true, if_false]
+    exact rwReplace_src _ _ _ _ _ hne
+
+/-- `replace_player`: the same for target-player fields -/
+theorem replace_tgt (h : replacePlayer s sel to only is_ it lk = .ok (s', x)) (hs : Selects s sel src t0)
+    (hx : s'.heap[x]? = some t') {isEff : Bool} {j : Nat} {c c' : Comp} (hc : Corr t0 t' isEff j c c')
+    (hne : c'.tgt ≠ c.tgt) :
+    it = true ∧ c'.tgt = some to ∧ (∀ o, only = some o → c.tgt = some o) ∧ c.tgt ≠ none ∧ c.tgt ≠ some (-1) := by
+  obtain ⟨rfl, h2, _⟩ := replace_shape h hs
+  rw [h2] at hx; injection hx with hx; subst hx
+  rw [corr_rewriteSpec rfl rfl hc] at hne ⊢
+  split at hne
+  · exact absurd rfl hne
+  · rename_i hl
+    simp only [hl, Bool.false_eq_true, if_false]
+    exact rwReplace_tgt _ _ _ _ _ hne
+
 end Aoe.Props.C08
